@@ -890,6 +890,12 @@ def run_c13(ctx):
         ctx.violations += writer_faults(ctx, cfg)
         for d in docs[:4]:
             ctx.sample({'op': 'io', 'cfg': cfg, 'doc_hex': hx(d), 'fail_at': 'every k in 0..=len', 'kinds': 'TimedOut, BrokenPipe, ...'})
+    for cfg in [c for c in getattr(ctx, 'side_cfgs', []) if c not in ctx.cfgs]:
+        # arbitrary_precision side configuration: numbers of untyped targets go through the textual scanner (scan_integer / scan_decimal / scan_exponent)
+        ndocs = [b'2e17 ', b'[1024, 7]', b'31e2', b'-0.5E-3', b'{"a":1.25e+10,"b":[12345678901234567890123, 0.000001]}', b'[1,2.5,3e5]', b'1.', b'1e', b'-']
+        ndocs += [x for x in gen.number_literals(ctx.rng, 40)[::97] if len(x) < 40][:40]
+        ctx.violations += judge_c13(ctx, cfg, ndocs)
+        ctx.violations += judge_c13_stream(ctx, cfg, [b'31e2 4', b'1.5 2.5e3 3', b'[1e2] 7'])
 
 # ================================================================== C14: hostile input
 _HEXSTR = __import__('re').compile(r'(?:s|[(,])([0-9a-f]{2,})(?=[:,)]|$)')
